@@ -3,6 +3,7 @@
 package main
 
 import (
+	"bytes"
 	"context"
 	"fmt"
 	"math"
@@ -256,17 +257,25 @@ func (b *Batch) msgpackBody() []byte {
 			}
 			items = append(items, map[string]interface{}{"m": b.Meas, "t": b.Times[i], "h": fmt.Sprintf("h%d", b.IDs[i]%3), "fields": fields})
 		}
-		out, err := msgpack.Marshal(map[string]interface{}{"batch": items})
-		if err != nil {
-			panic(err)
-		}
-		return out
+		return mpMarshal(map[string]interface{}{"batch": items})
 	}
-	out, err := msgpack.Marshal(map[string]interface{}{"m": b.Meas, "columns": b.columns()})
-	if err != nil {
+	cols := map[string]interface{}{}
+	for k, v := range b.columns() {
+		cols[k] = v
+	}
+	return mpMarshal(map[string]interface{}{"m": b.Meas, "columns": cols})
+}
+
+// mpMarshal encodes with sorted map keys: the byte layout of a request must
+// be a function of the plan (Go map iteration order is not).
+func mpMarshal(v interface{}) []byte {
+	var buf bytes.Buffer
+	enc := msgpack.NewEncoder(&buf)
+	enc.SetSortMapKeys(true)
+	if err := enc.Encode(v); err != nil {
 		panic(err)
 	}
-	return out
+	return buf.Bytes()
 }
 
 func lpEscape(s string) string {
